@@ -58,6 +58,51 @@ fn gen_case(rng: &mut Rng, small: bool) -> Case {
     Case::new(&cfg, &input, &cuts)
 }
 
+/// a rewrite that fails inside a user handler on a `<meta charset>` element while the charset adjustment is on (leaves
+/// any per-thread hand-over state of the encoding change behind if there is one)
+fn gen_meta_fail_case(rng: &mut Rng) -> Case {
+    let mut cfg = Config { send: true, adjust_charset: true, graceful_handler: rng.bool(), ..Default::default() };
+    cfg.el.push(engine::ElH { selector: (*rng.pick(&["meta", "*", "[charset]", "head *"])).to_string(), element: true, ..Default::default() });
+    let mut input = gen::soup(rng, 3, SoupKind::HtmlOnly, false);
+    input.extend_from_slice(rng.pick(&["<head><meta charset=windows-1251>", "<head><meta charset=\"shift_jis\">", "<head><meta http-equiv=content-type content=\"text/html; charset=koi8-r\">"]).as_bytes());
+    input.extend(gen::soup(rng, 3, SoupKind::HtmlOnly, false));
+    // fail at the invocation that handles the meta element (found by a dry run)
+    if let Ok(dry) = engine::run(&cfg, &input, &[]) {
+        let mut k = 0;
+        for r in &dry.log {
+            if let Rec::El(e) = r {
+                k += 1;
+                if e.name == "meta" && e.attrs.iter().any(|a| a.name == "charset" || a.name == "content") {
+                    cfg.fail_at = Some(k);
+                    break;
+                }
+            }
+        }
+    }
+    let cuts = gen::random_cuts(rng, input.len());
+    Case::new(&cfg, &input, &cuts)
+}
+
+/// fixed probe rewrites whose result must not depend on what ran before on the same thread
+fn probes() -> Vec<(Config, Vec<u8>)> {
+    let obs = |adjust: bool| Config {
+        send: true,
+        adjust_charset: adjust,
+        el: vec![engine::ElH { selector: "*".into(), element: true, text: true, comments: true, ..Default::default() }],
+        doc: vec![engine::DocH { text: true, comments: true, doctype: true, end: true, ..Default::default() }],
+        ..Default::default()
+    };
+    vec![
+        (obs(false), "<!doctype html><p title=\u{e9}>h\u{e9}llo \u{43f}\u{440}\u{438}\u{432}\u{435}\u{442}</p><!-- c\u{e9} --><b>x</b>".as_bytes().to_vec()),
+        (obs(true), "<head><meta charset=utf-8><title>t\u{e9}</title></head><p>\u{e9}\u{e8}</p>".as_bytes().to_vec()),
+        (Config { send: true, ..Default::default() }, "<p>plain \u{e9}</p>".as_bytes().to_vec()),
+    ]
+}
+
+fn run_probes() -> Result<Vec<Vec<Rec>>, String> {
+    probes().iter().map(|(c, i)| engine::run(c, i, &[3, 17]).map(|r| strip(&r.log))).collect()
+}
+
 pub struct Obs {
     pub max_in_flight: usize,
     pub threads: usize,
@@ -68,6 +113,8 @@ pub struct Obs {
 pub fn check(c: &Case18, seed: u64) -> Result<Obs, (String, String)> {
     let n = c.cases.len();
     let mut reference: Vec<Vec<Rec>> = vec![];
+    // what the probe rewrites give on a thread without any history
+    let fresh_probes = std::thread::scope(|sc| sc.spawn(run_probes).join().unwrap_or_else(|_| Err("probe thread panicked".into()))).map_err(|e| ("harness".to_string(), e))?;
     for case in &c.cases {
         let r = engine::run(&case.cfg, &case.input(), &case.cuts).map_err(|e| ("harness".to_string(), e))?;
         // repeat: a rewrite is a pure function of configuration and input
@@ -76,6 +123,15 @@ pub fn check(c: &Case18, seed: u64) -> Result<Obs, (String, String)> {
             return Err(("not-repeatable".into(), format!("two sequential runs of the same rewrite differ: {}\n input: {}", crate::norm::first_diff(&strip(&r.log), &strip(&r2.log)), show(&case.input()))));
         }
         reference.push(strip(&r.log));
+        // instances share no state: whatever this rewrite did (incl. failing half-way) leaves nothing behind on this thread
+        let after = run_probes().map_err(|e| ("harness".to_string(), e))?;
+        if after != fresh_probes {
+            let k = (0..after.len()).find(|&k| after[k] != fresh_probes[k]).unwrap_or(0);
+            return Err((
+                "rewrite-leaves-state-on-its-thread".into(),
+                format!("a fixed probe rewrite run on the same thread right after this rewrite differs from the same probe on a fresh thread: {}\n the rewrite before it: input {} config {}", crate::norm::first_diff(&fresh_probes[k], &after[k]), show(&case.input()), serde_json::to_string(&case.cfg).unwrap().chars().take(600).collect::<String>()),
+            ));
+        }
     }
     // concurrent
     let in_flight = Arc::new(AtomicUsize::new(0));
@@ -275,7 +331,7 @@ impl Prop for C18 {
         "C18"
     }
     fn rule(&self) -> String {
-        "groups of 2-6 generated rewrites (send handler types; observers and mutating scripts; injected failures and memory limits; bail-out handlers): each is run twice sequentially (must be identical), then all of them concurrently on their own threads released by a barrier with random yields (each must equal its sequential run), then as a send::HtmlRewriter moved to a freshly spawned thread for every write() and for end(); concurrent Selector parsing on 4 threads; case-twin selectors (differing only in the ASCII case of a class / id / attribute value) run after each other and concurrently must stay distinct; C API last-error ping-pong choreographed with barriers; the same workload runs under ThreadSanitizer (any report fails the run) and, small, under Miri's data-race detector; non-trivial: >= 2 threads were inside lol-html at the same time (in-flight counter); distinct = hash(group)".into()
+        "groups of 2-6 generated rewrites (send handler types; observers and mutating scripts; injected failures and memory limits; bail-out handlers): each is run twice sequentially (must be identical) and followed on the same thread by fixed probe rewrites that must equal their run on a fresh thread (nothing is left behind, also after a failure inside a handler on a meta charset element), then all of them concurrently on their own threads released by a barrier with random yields (each must equal its sequential run), then as a send::HtmlRewriter moved to a freshly spawned thread for every write() and for end(); concurrent Selector parsing on 4 threads; case-twin selectors (differing only in the ASCII case of a class / id / attribute value) run after each other and concurrently must stay distinct; C API last-error ping-pong choreographed with barriers; the same workload runs under ThreadSanitizer (any report fails the run) and, small, under Miri's data-race detector; non-trivial: >= 2 threads were inside lol-html at the same time (in-flight counter); distinct = hash(group)".into()
     }
     fn assumptions(&self) -> Vec<String> {
         vec!["a future global guarded by a lock that does not change results is invisible to this family".into()]
@@ -299,7 +355,7 @@ impl Prop for C18 {
                 }
             }
             let k = if slow { 2 } else { ctx.rng.range(2, 6) };
-            let case = Case18 { cases: (0..k).map(|_| gen_case(&mut ctx.rng, slow)).collect() };
+            let case = Case18 { cases: (0..k).map(|j| if j == 0 && ctx.rng.chance(1, 5) { gen_meta_fail_case(&mut ctx.rng) } else { gen_case(&mut ctx.rng, slow) }).collect() };
             ctx.eval();
             match check(&case, ctx.seed ^ i) {
                 Ok(o) => {
